@@ -18,7 +18,11 @@ Inductive c08_case :=
 | CSetter (n : list nat) (v : vinput) (obs : option (list nat * list bool))
           (obs_isbool obs_vals_same obs_own : bool)
 | CNorm (exact : bool) (n : list nat) (nvdim : nat) (vals : list Q) (obs : list bool)
-| CVtkEnc (sh : list nat) (mask : list bool) (obs_ints : list Z).
+| CVtkEnc (sh : list nat) (mask : list bool) (obs_ints : list Z)
+(* binary operation between two expressions over operands on one mesh, where the meshes of the two
+   sides may differ in position only *)
+| CBinGeo (env : list (list nat * list bool)) (nd : nat) (b : binop) (e1 e2 : expr)
+          (obs : option (list nat * list bool)).
 
 Definition optnat_eqb (a b : option nat) : bool :=
   match a, b with
@@ -75,4 +79,12 @@ Definition check_C08 (c : c08_case) : bool :=
       forallb2 (norm_ok exact) obs (chunks nvdim (nprod n) vals)
   | CVtkEnc sh mask obs_ints =>
       wfb (mkM sh mask) && zlist_eqb (vtk_encode (mkM sh mask)) obs_ints
+  | CBinGeo env nd b e1 e2 obs =>
+      let menv := mk_env env in
+      forallb wfb menv &&
+      match veval_bin_geo menv nd b e1 e2, obs with
+      | Some (OK v), Some (sh, cells) => marr_eqb v (mkM sh cells)
+      | Some (Err _), None => true
+      | _, _ => false
+      end
   end.
